@@ -195,6 +195,102 @@ theorem group_count_model (env : Env N) (data : Row N) (t : String) (rows : List
       rfl rfl g.1 hk g.2
     simp only [this, bind, Except.bind, pure, Except.pure]
 
+theorem filterLoop_map {α β : Type} (p : β → R Bool) (h : α → β) (f : α → Bool) (xs : List α)
+    (hp : ∀ x ∈ xs, p (h x) = .ok (f x)) : filterLoop p (xs.map h) = .ok ((xs.filter f).map h) := by
+  induction xs with
+  | nil => rfl
+  | cons x xs ih =>
+    have hx := hp x (by simp)
+    have := ih (fun y hy => hp y (by simp [hy]))
+    simp only [List.map_cons, filterLoop, hx, this, bind, Except.bind, pure, Except.pure, List.filter_cons]
+    cases f x <;> rfl
+
+/-- the row a group is presented as to HAVING and to the select list: its key columns plus `*` = the members -/
+def groupRow (g : Row N × List (Val N)) : Row N := setKey "*" (.arr g.2) (copyInto [] g.1)
+
+/-- the context of the grouped stages -/
+def groupCtx (data : Row N) (src kept : List (Val N)) : Ctx N :=
+  { data := data, hard := false, grouped := true, matched := kept, fromLen := src.length }
+
+/-- **the grouped pipeline.**  `SELECT [DISTINCT] sel FROM t WHERE p GROUP BY g HAVING h ORDER BY … LIMIT …` over a flat
+    table whose `g` values are scalars: the rows that passed WHERE are grouped as the textbook grouping
+    (`catalogue` = `groupsSpec`), HAVING filters the GROUPS, the select list is evaluated once per kept group on
+    `{g: key, *: members}`, then DISTINCT, ORDER BY and the window apply to the projected groups. -/
+theorem group_pipeline (env : Env N) (data : Row N) (t : String) (rows : List (Row N)) (p : Expr N)
+    (sel : List (SelItem N)) (having : Expr N) (distinct : Bool) (orderBy : List (List String × Bool))
+    (limit offset : Option Nat) (hv : Row N × List (Val N) → Bool) (proj : Row N × List (Val N) → Row N)
+    (ht : Val.get data t = .arr (rows.map Val.obj)) (hwt : ∀ r ∈ rows, WT r p)
+    (hg : ∀ r ∈ rows, IsScalar (Val.get r "g"))
+    (hhav : ∀ g ∈ catalogue gkey ((rows.filter (sem · p)).map Val.obj),
+      (do rawBool (← evalExpr env (groupCtx data (rows.map Val.obj) ((rows.filter (sem · p)).map Val.obj))
+        (groupRow g) having)) = .ok (hv g))
+    (hsel : ∀ g ∈ catalogue gkey ((rows.filter (sem · p)).map Val.obj),
+      evalSel env (groupCtx data (rows.map Val.obj) ((rows.filter (sem · p)).map Val.obj)) (groupRow g) sel [] =
+        .ok (proj g)) :
+    execQuery env data {} (.select [] distinct sel (.table [t] "" t) p [("g", ["g"])] having orderBy limit offset)
+      = (do
+          let groups := (catalogue gkey ((rows.filter (sem · p)).map Val.obj)).filter hv
+          let projected := groups.map fun g => Val.obj (proj g)
+          let deduped := if distinct then dedupBy valEq projected else projected
+          let sorted ← sortRows orderBy deduped
+          let out ← window sorted offset limit
+          pure (Val.arr out)) := by
+  have hE : ("" : String).isEmpty = true := by decide
+  simp only [execQuery, prepare, evalCtes, evalFrom, cteNames, List.append_nil, List.not_mem_nil,
+    if_false, readPath_single, ht, asArray, processAlias, bind, Except.bind, pure, Except.pure,
+    hE, if_true, execLevel, List.isEmpty_nil, Bool.not_true]
+  rw [levelLoop_flat _ _ _ rows (fun r => sem r p) (by
+    intro r hr
+    simp [evalPred_sound env ⟨data, false, true, _, _⟩ rfl r p (hwt r hr), rawBool])]
+  simp only [List.isEmpty_cons, Bool.not_false, Bool.not_true, Bool.false_eq_true, if_false]
+  have hshape : ∀ x ∈ (rows.filter (sem · p)).map Val.obj, KeyShape (gkey x) := by
+    intro x hx
+    simp only [List.mem_map, List.mem_filter] at hx
+    obtain ⟨r, ⟨hr, _⟩, rfl⟩ := hx
+    exact ⟨Val.get r "g", hg r hr, rfl⟩
+  rw [groupLoop_on' _ (fun (k1 k2 : Row N) =>
+        List.foldlM (fun acc (kv : String × Val N) =>
+          if (!acc) = true then Except.ok false else goEq (Val.get k1 kv.fst) kv.snd) true k2)
+      gkey (fun _ _ => rfl) ((rows.filter (sem · p)).map Val.obj) [] (by
+      intro x hx
+      refine ⟨?_, hshape x hx⟩
+      simp only [List.mem_map] at hx
+      obtain ⟨r, _, rfl⟩ := hx
+      simp [List.foldlM, readPath_single, gkey, setKey, bind, Except.bind, pure, Except.pure]) (by simp)]
+  have hcat : scanG keq gkey ((rows.filter (sem · p)).map Val.obj) [] =
+      catalogue gkey ((rows.filter (sem · p)).map Val.obj) := rfl
+  rw [hcat]
+  dsimp only
+  -- HAVING filters the groups
+  rw [show (List.map (fun g => setKey "*" (Val.arr g.snd) (copyInto [] g.fst))
+        (catalogue gkey (List.map Val.obj (List.filter (fun r => sem r p) rows)))) =
+      (catalogue gkey (List.map Val.obj (List.filter (fun r => sem r p) rows))).map groupRow from rfl]
+  rw [filterLoop_map _ groupRow hv _ (by
+    intro g hgm
+    have := hhav g hgm
+    simp only [groupCtx, bind, Except.bind] at this
+    exact this)]
+  simp only [List.map_map, Function.comp_def]
+  -- the select list per kept group
+  have hnot : (isAllAggr sel && false) = false := by simp
+  simp only [hnot, Bool.false_eq_true, if_false, selectRowsWith]
+  rw [mapE_comp, mapE_eq_map_of_ok (g := fun g : Row N × List (Val N) => Val.obj (proj g))]
+  · simp only [List.map_map, Function.comp_def]
+    generalize (if distinct = true then
+        dedupBy valEq (List.map (fun g => Val.obj (proj g))
+          (List.filter hv (catalogue gkey (List.map Val.obj (List.filter (fun r => sem r p) rows)))))
+      else List.map (fun g => Val.obj (proj g))
+          (List.filter hv (catalogue gkey (List.map Val.obj (List.filter (fun r => sem r p) rows))))) = combined
+    cases hs : sortRows orderBy combined with
+    | error e => rfl
+    | ok v => cases hw : window v offset limit <;> rfl
+  · intro g hgm
+    have hmem : g ∈ catalogue gkey ((rows.filter (sem · p)).map Val.obj) := (List.mem_filter.mp hgm).1
+    have := hsel g hmem
+    simp only [groupCtx] at this
+    simp only [groupRow] at this ⊢
+    simp only [this, bind, Except.bind, pure, Except.pure]
+
 /-- the groups of that result are the textbook grouping of the kept rows: distinct key rows in order of first
     appearance, each with exactly the rows carrying that key, in source order -/
 theorem group_count_groups (rows : List (Row N)) (p : Expr N) :
